@@ -376,7 +376,7 @@ func (adb *AccountsDB) loadDataTrie(accountHandler baseAccountHandler) error {
 	}
 
 	dataTrie := adb.dataTries.Get(accountHandler.AddressBytes())
-	if dataTrie != nil {
+	if dataTrie != nil && adb.hasSameRootHash(dataTrie, accountHandler) {
 		accountHandler.SetDataTrie(dataTrie)
 		return nil
 	}
@@ -389,6 +389,17 @@ func (adb *AccountsDB) loadDataTrie(accountHandler baseAccountHandler) error {
 	accountHandler.SetDataTrie(dataTrie)
 	adb.dataTries.Put(accountHandler.AddressBytes(), dataTrie)
 	return nil
+}
+
+// hasSameRootHash returns true if the cached data trie still is the data trie of the provided account. After an account
+// has been removed, re-created and the removal reverted, the cache can hold the data trie of the re-created account
+func (adb *AccountsDB) hasSameRootHash(dataTrie data.Trie, accountHandler baseAccountHandler) bool {
+	cachedRootHash, err := dataTrie.RootHash()
+	if err != nil {
+		return false
+	}
+
+	return bytes.Equal(cachedRootHash, accountHandler.GetRootHash())
 }
 
 // SaveDataTrie is used to save the data trie (not committing it) and to recompute the new Root value
